@@ -15,7 +15,7 @@ Definition range_ord_int (v lo hi : Z) : inner_RangeOrdering :=
 
 Lemma cmp_int_range_ok v lo hi : lo <= hi -> inner_cmp_int_range v lo hi = Ret (range_ord_int v lo hi).
 Proof.
-  intros H. unfold inner_cmp_int_range, range_ord_int, range_ord.
+  intros H. unfold inner_cmp_int_range, range_ord_int, range_ord. autounfold with gen_new.
   repeat match goal with |- context[if ?c then _ else _] => destruct c eqn:? end; try reflexivity; exfalso; lia.
 Qed.
 
@@ -38,6 +38,7 @@ Proof.
   rewrite ?Month_lt_ok, ?Month_le_ok, ?Month_eq_ok.
   set (a := Month_discr m) in *. set (b := Month_discr lm) in *. set (c := Month_discr um) in *.
   repeat first [ progress cbn [bind negb]
+               | progress autounfold with gen_new
                | rewrite Month_lt_ok | rewrite Month_le_ok | rewrite Month_eq_ok
                | match goal with |- context[if ?c then _ else _] => destruct c eqn:? end ];
     try reflexivity; exfalso; lia.
